@@ -81,8 +81,17 @@ def gen_expr(rng, vars_, d, numeric_eq, no_tuple=False):
     if k == "tuple":
         return ("tuple", [E() for _ in range(rng.randrange(1, 4))])
     if k == "sub":
-        base = ("tuple", [E() for _ in range(rng.randrange(1, 4))]) if rng.random() < 0.5 or not vars_ else ("name", rng.choice(vars_))
-        return ("sub", base, rng.choice([0, 1, -1, 0, -2, 2]))
+        # mostly well-typed subscripts: a tuple display with an index in range, or a parameter declared
+        # tuple[int, str]; a small share of arbitrary ones (out of range / non-sequence: the model
+        # leaves the fragment there, pyanalyze reports an error)
+        tp = [v for v in vars_ if v in _TUPLE_PARAMS]
+        r2 = rng.random()
+        if r2 < 0.08 and vars_:
+            return ("sub", ("name", rng.choice(vars_)), rng.choice([0, 1, -1, -2, 2]))
+        if tp and r2 < 0.5:
+            return ("sub", ("name", rng.choice(tp)), rng.choice([0, 1, -1, -2]))
+        n = rng.randrange(1, 4)
+        return ("sub", ("tuple", [E() for _ in range(n)]), rng.randrange(-n, n))
     if k == "ifexp":
         return ("ifexp", gen_cond(rng, vars_, d - 1, numeric_eq), E(), E())
     return (k, E(), E())
@@ -173,9 +182,14 @@ def uses_only(e, allowed):
     )
 
 
+_TUPLE_PARAMS = set()
+
+
 def gen_program(rng, numeric_eq):
     np_ = rng.randrange(1, 4)
     ptypes = [rng.randrange(len(PTYPES)) for _ in range(np_)]
+    _TUPLE_PARAMS.clear()
+    _TUPLE_PARAMS.update(i for i, t in enumerate(ptypes) if PTYPES[t][0] == "tuple[int, str]")
     vars_ = list(range(np_))
     body = gen_block(rng, vars_, rng.randrange(2, 6), 2, numeric_eq)
     if not body or body[-1][0] != "return":
@@ -409,6 +423,7 @@ def model_obj_canon(t):
     raise ValueError(t)
 
 
+EXACT_KINDS = ("Call", "Compare", "UnaryOp")
 AGREEMENT_MIN = 0.90
 NARROWER_MAX = 0.06
 
@@ -552,6 +567,7 @@ def correspondence(rep, proof, tier, rng, found_input):
     n_widen = 0
     n_unknown_nodes = 0
     n_eq_skipped = 0
+    per_kind = {}
     n_den_equal = n_impl_wider = n_impl_narrower = n_incomparable = 0
     kinds = {}
     loops = 0
@@ -582,6 +598,14 @@ def correspondence(rep, proof, tier, rng, found_input):
                 n_nodes += 1
                 kinds[kn] = kinds.get(kn, 0) + 1
                 m = vs[-1]
+                pk = per_kind.setdefault(kn, {"equal": 0, "bool_vs_literal_bool": 0, "same_denotation": 0, "impl_wider": 0, "impl_narrower": 0, "incomparable": 0})
+                if m == impl:
+                    pk["equal"] += 1
+                elif bool_widen(m, impl):
+                    pk["bool_vs_literal_bool"] += 1
+                else:
+                    _dm, _di = denote(m), denote(impl)
+                    pk["same_denotation" if _dm == _di else "impl_wider" if _di > _dm else "impl_narrower" if _di < _dm else "incomparable"] += 1
                 if m == impl:
                     n_equal += 1
                 elif bool_widen(m, impl):
@@ -626,6 +650,15 @@ def correspondence(rep, proof, tier, rng, found_input):
     # AGREEMENT_MIN of the compared nodes denote the same set, or more than NARROWER_MAX are strictly
     # narrower in pyanalyze than in the (proved sound) model.
     guard_mism = [m for m in mism] if (rate < AGREEMENT_MIN or (n_impl_narrower + n_incomparable) / max(1, n_nodes) > NARROWER_MAX) else []
+    # constructs on which the model is exact (isinstance calls, `is None` comparisons, `not`): every node must agree
+    exact_bad = [m for m in mism if m[2] in EXACT_KINDS]
+    for kn in EXACT_KINDS:
+        pk = per_kind.get(kn, {})
+        if pk.get("impl_wider", 0) + pk.get("same_denotation", 0):
+            exact_bad.append((None, None, kn, "non-identical value on an exact construct", pk))
+    cov["exact_constructs"] = {kn: per_kind.get(kn, {}) for kn in EXACT_KINDS}
+    if exact_bad and not guard_mism and exact_bad[0][0] is not None:
+        guard_mism = exact_bad
     if guard_mism and not (found_input or impl_fail):
         ci, lab, kn, m, impl = guard_mism[0]
         c = cases[ci]
@@ -645,7 +678,7 @@ def correspondence(rep, proof, tier, rng, found_input):
         evaluations=n_nodes + sum(1 for m in meta if m[1] == "run"), distinct_nontrivial=n_nodes,
         nodes_compared=n_nodes, nodes_equal=n_equal, nodes_same_denotation_on_universe=n_den_equal, nodes_impl_wider_than_model=n_impl_wider,
         nodes_impl_narrower_than_model=n_impl_narrower, nodes_incomparable=n_incomparable, universe_size=len(UNIVERSE), nodes_model_bool_impl_literal_bool=n_widen, nodes_mismatch=len(mism),
-        nodes_out_of_fragment=n_unknown_nodes, nodes_skipped_eq_result_type=n_eq_skipped, node_kinds=kinds,
+        per_construct_agreement=per_kind, nodes_out_of_fragment=n_unknown_nodes, nodes_skipped_eq_result_type=n_eq_skipped, node_kinds=kinds,
         model_run_checks=sum(1 for m in meta if m[1] == "run"), model_run_check_false_outside_guard=sum(1 for ci, _ in run_false if not guarded(cases[ci]["prog"])),
         model_run_check_false_inside_guard=sum(1 for ci, _ in run_false if guarded(cases[ci]["prog"])),
         impl_membership_failures_unattributed=len(impl_fail),
